@@ -106,6 +106,21 @@ pub fn decode(ty: &Ty, w: &V) -> R {
             }
             _ => return Err(BAD),
         },
+        Ty::ParamsOut => match w {
+            V::A(a) if a.len() <= 2 => {
+                let entry = cred_param();
+                let mut out = Vec::new();
+                for x in a {
+                    let v = decode(&entry, x)?.unwrap();
+                    if v.get_t("type").unwrap().as_str() != Some(PUBLIC_KEY) {
+                        return Err(BAD);
+                    }
+                    out.push(v.get_t("alg").unwrap().clone());
+                }
+                V::A(out)
+            }
+            _ => return Err(BAD),
+        },
         Ty::Formats => match w {
             V::A(a) => {
                 let mut known = Vec::new();
@@ -685,6 +700,14 @@ pub fn menu(ty: &Ty, id: usize, side: Side) -> Vec<V> {
                 ]
             }
         }
+        Ty::ParamsOut => vec![
+            V::A(vec![param(-7, PUBLIC_KEY)]),
+            V::A(vec![]),
+            V::A(vec![param(-8, PUBLIC_KEY), param(-7, PUBLIC_KEY)]),
+            V::A(vec![param(-257, PUBLIC_KEY)]),
+            V::A(vec![param(-7, PUBLIC_KEY), param(-65537, PUBLIC_KEY)]),
+            V::A(vec![param(i32::MIN as i64, PUBLIC_KEY), param(i32::MAX as i64, PUBLIC_KEY)]),
+        ],
         Ty::Formats => vec![
             V::A(vec![V::t("packed"), V::t("tpm"), V::t("none")]),
             V::A(vec![]),
